@@ -13,7 +13,7 @@ import ast
 
 from ..engine import rule, run_property
 from ..model import Undecided
-from ..cfg import dotted, call_name, is_call, simple_name, unparse, const_value, contains, enclosing, norm_cmp
+from ..cfg import same, dotted, call_name, is_call, simple_name, unparse, const_value, contains, enclosing, norm_cmp
 from ..flow import Defs, depends, affine, try_const
 from ..decide import table, ret_kind
 from ..axis import axis_reports
@@ -70,7 +70,7 @@ def c03b(ctx):
     rets = returns_of(fn.node)
     if len(rets) != 1 or not isinstance(rets[0].value, ast.Tuple) or len(rets[0].value.elts) != 3:
         raise Undecided('flip_tile_coord does not return a 3-tuple')
-    names = {k: {n for n, ds in defs.defs.items() for v, sel in ds if sel == k and unparse(v) == 'tile_coord'} for k in range(3)}
+    names = {k: {n for n, ds in defs.defs.items() for v, sel in ds if sel == k and same(v, 'tile_coord')} for k in range(3)}
     xs, ys, zs = (sorted(names[k])[0] if names[k] else '?' for k in range(3))
     e = rets[0].value.elts
     ctx.check(unparse(e[0]) == xs and unparse(e[2]) == zs, 'TileGrid.flip_tile_coord:passthrough', 'column and level pass through unchanged', fn, rets[0],
@@ -173,7 +173,7 @@ def c03d(ctx):
             okd = len(ds) == 1 and isinstance(d, ast.BinOp) and isinstance(d.op, ast.Div) and 'resolutions[level]' in unparse(d.left) and \
                 isinstance(try_const(d.right), (int, float)) and try_const(d.right) > 1
             ok = okd and [(c[0], c[1]) for c in cs] == [('bbox[0]', 1), ('bbox[1]', 1), ('bbox[2]', -1), ('bbox[3]', -1)]
-            ok = ok and all(unparse(c.args[2]) == 'level' for c in calls)
+            ok = ok and all(same(c.args[2], 'level') for c in calls)
             detail = 'corners %s / %s' % ([fn.ctext(a) for a in calls[0].args[:2]], [fn.ctext(a) for a in calls[1].args[:2]])
             forms.append((sorted(x.replace('self.grid.', 'self.') for x in ds), [(c[0], c[1]) for c in cs]))
         ctx.check(ok, '%s.get_affected_level_tiles:inset-both-corners' % cls,
@@ -269,7 +269,7 @@ def c03f(ctx):
     loops = [s for s in ct.walk() if isinstance(s, ast.For)]
     outer = [l for l in loops if any(isinstance(s, ast.For) for s in l.body)]
     inner = [l for l in loops if l not in outer]
-    ok = len(outer) == 1 and len(inner) == 1 and unparse(outer[0].iter) == 'ys' and unparse(inner[0].iter) == 'xs'
+    ok = len(outer) == 1 and len(inner) == 1 and same(outer[0].iter, 'ys') and same(inner[0].iter, 'xs')
     ys_ = [x for x in ct.walk() if isinstance(x, ast.Yield) and isinstance(x.value, ast.Tuple)]
     ok = ok and bool(ys_) and all([unparse(e) for e in y.value.elts] == [unparse(inner[0].target), unparse(outer[0].target), 'level'] for y in ys_)
     ctx.check(ok, '_create_tile_list:row-major', 'the list is row-major (rows outside, columns inside) and yields (x, y, level)', ct,
